@@ -576,6 +576,9 @@ def c10_structure(units, R):
                 a = ev.node
                 if a['op'] == '=':
                     _assign(a['l'], _ev(a['r'], st), st, a['r'])
+                elif a['op'] in ('+=', '-='):
+                    o_, r_ = _ev(a['l'], st), _ev(a['r'], st)
+                    _assign(a['l'], o_.add(r_, 1 if a['op'] == '+=' else -1) if o_ is not None and r_ is not None else None, st)
                 else:
                     _assign(a['l'], None, st)
             elif ev.kind == 'incdec':
@@ -2611,10 +2614,17 @@ def c03_structure(units, R):
         fn = u.fn(name)
         cfg = fn.cfg()
         tstores = set()
+        value_parsers = ('parse_value', 'parse_array', 'parse_object', 'parse_string', 'parse_number')
         for m in cfg.nodes:
             for ev in node_effects(m):
                 if ev.kind == 'store' and is_mem(ev.lhs, 'type'):
                     tstores.add(m.id)
+            # a call of another value parser on the way (its result is tested: TAB17): that one stored the type, which is
+            # its own obligation here
+            root_ = m.decl.get('init') if m.kind == 'decl' else getattr(m, 'expr', None)
+            if root_ is not None and any(c_.get('k') == 'call' and callee_name(c_) in value_parsers and callee_name(c_) != name
+                                         for c_ in walk(root_)):
+                tstores.add(m.id)
         for r in cfg.returns():
             if r.expr is None or const_val(r.expr) in (0, None):
                 continue
